@@ -97,6 +97,7 @@ type Config struct {
 }
 
 type Interp struct {
+	uniqueTab map[string]Ptr // unique.Make handles (per interpreter, across paths)
 	skipIntrinsic string // name of a function whose intrinsic is bypassed for the next call (the real body runs)
 	prog    *ssa.Program
 	tt      *TermTable
